@@ -29,7 +29,8 @@ CFG = {
             "PASS outside. The harness reports the points line_intersection returned for the proper crossings relate can meet (within each operand, between "
             "the operands); the model is run with these points and emulated binary64 subtraction, and in exact arithmetic (tag rounded-crossing-changes-matrix "
             "when the two differ). SKIP near-tie:intersection-key-collision: two different points of one segment got the same (segment, rounded distance) key, "
-            "so the R-tree's visiting order decides which one an edge keeps.",
+            "so the R-tree's visiting order decides which one an edge keeps. SKIP underflow-range:orientation-inexact: a coordinate below 2^-400 and the model "
+            "(exact orientation) disagrees with the code (robust::orient2d is not exact there, K10); about 1 in 200 000.",
     "trusted_base": [
         "spec adequacy (S1): the arrangement atoms (vertices, elementary-edge midpoints, two infinitesimally displaced face samples per edge) meet "
         "every cell of the arrangement of A ∪ B — not proved; the spec is an independent definition (own winding computation, symbolic infinitesimals)",
